@@ -104,6 +104,12 @@ Inductive stmt :=
 | SLetTupV (x : string) (es : list vexpr)               (* x = (v1, v2, ..) *)
 | SUntupV (xs : list string) (src : string)             (* let (a, b) = src / a tuple pattern parameter *)
 | SIfPrefix (x : string) (a : string) (n : nat) (body : list stmt)   (* if let Some(x) = a.get(..n) { body } *)
+| SCallWith (dst : option string) (f : string) (args : list arg) (fmap : list (string * string))
+      (* dst = T { field: x, .. }.f(args), T another translated type: the callee runs on a temporary object whose fields
+         (callee names, "self.v0") are the caller's variables / fields named in fmap *)
+| SCallNew (x : string) (f : string) (args : list arg) (shape : list (string * nat))
+      (* let x = T::f(args), f a constructor of another translated type: the callee runs on an object with zeroed fields (shape:
+         field name, array length — 0 for a scalar); afterwards the object's fields are the variables "x.<field>" *)
 | SUnsupported (s : string).
 
 Inductive ret := RNone | RVal (e : expr) | RArr (es : list expr) | RTuple (es : list expr) | RVarArr (x : string)
@@ -381,6 +387,24 @@ Fixpoint merge_back (g : env) (sub : env) (fmap : list (string * string)) : env 
       merge_back (match lookup sub callee with Some v => upd g caller v | None => g end) sub m
   end.
 
+(* an object of another type: built from the caller's variables / zeroed; its fields bound to "x.<field>" afterwards *)
+Fixpoint with_env (s : state) (fmap : list (string * string)) : option env :=
+  match fmap with
+  | [] => Some []
+  | (callee, caller) :: m =>
+      match get s caller, with_env s m with
+      | Some v, Some e => Some ((callee, v) :: e)
+      | _, _ => None
+      end
+  end.
+Definition zero_env (shape : list (string * nat)) : env :=
+  map (fun nk => (fst nk, match snd nk with O => VN 0 | k => VA (repeat 0 k) end)) shape.
+Fixpoint bind_obj (s : state) (x : string) (g : env) : state :=
+  match g with
+  | [] => s
+  | (n, v) :: g' => bind_obj (put s (x ++ substring 4 (String.length n - 4) n)%string v) x g'      (* "self.v0" -> "x.v0" *)
+  end.
+
 Section Exec.
   Variable p : profile.
   (* calls, provided by the level below (fuel): name, fields of self, argument values
@@ -601,6 +625,25 @@ Section Exec.
             else Ok s
         | _ => Fault
         end
+    | SCallWith dst f args fmap =>
+        do vs <- eval_args p s args ;;
+        match with_env s fmap with
+        | Some g0 =>
+            do r <- call f g0 vs ;;
+            let '(_, finals, rv) := r in
+            let s2 := copy_out s args finals in
+            match dst, rv with
+            | None, _ => Ok s2
+            | Some x, Some v => Ok (put s2 x v)
+            | Some _, None => Fault
+            end
+        | None => Fault
+        end
+    | SCallNew x f args shape =>
+        do vs <- eval_args p s args ;;
+        do r <- call f (zero_env shape) vs ;;
+        let '(g', finals, _) := r in
+        Ok (bind_obj (copy_out s args finals) x g')
     | SUnsupported _ => Fault
     end.
 
